@@ -96,6 +96,45 @@ func CheckC15(c *Ctx) {
 		0.09999999999999999, 3.9999999999999996, 6.999999999999999, 8.999999999999998, 10.000000000000002, -1e-300, 1e-300, 0.05, 3.95, 6.95, 8.95, 9.95, 10.05, -0.05, 11, -1, 100, 1e6} {
 		add(x, "special")
 	}
+	// every one-decimal score as produced by different arithmetic, its ulp neighbours, and offsets at every decimal scale
+	for k := 0; k <= 100; k++ {
+		x := float64(k) / 10
+		add(float64(k)*0.1, "k*0.1")
+		sum := 0.0
+		for j := 0; j < k; j++ {
+			sum += 0.1
+		}
+		add(sum, "0.1-added-k-times")
+		lo, hi := x, x
+		for u := 0; u < 4; u++ {
+			lo = math.Nextafter(lo, math.Inf(-1))
+			hi = math.Nextafter(hi, math.Inf(1))
+			add(lo, "score-ulps-below")
+			add(hi, "score-ulps-above")
+		}
+		for j := 1; j <= 16; j++ {
+			d := math.Pow(10, -float64(j))
+			add(x-d, "score-minus-10^-j")
+			add(x+d, "score-plus-10^-j")
+			add(x+0.05-d, "midpoint-minus-10^-j")
+			add(x+0.05+d, "midpoint-plus-10^-j")
+		}
+	}
+	// every binary exponent with a few mantissa patterns, both signs (denormals included); every decimal magnitude
+	for e := -1074; e <= 1023; e++ {
+		for _, m := range []float64{1, 1.5, 1.25, 1.75, 1.0000000000000002, 1.9999999999999998} {
+			x := math.Ldexp(m, e)
+			add(x, "m*2^e")
+			add(-x, "-m*2^e")
+		}
+	}
+	for e := -324; e <= 308; e++ {
+		for _, m := range []float64{1, 3, 9.999999999999999} {
+			x := m * math.Pow(10, float64(e))
+			add(x, "m*10^e")
+			add(-x, "-m*10^e")
+		}
+	}
 	c.Parallel("fixed", len(fixed), 8, func(w *Worker, i int) {
 		one(w, fixed[i], labels[i])
 		if i%9 == 0 {
@@ -118,7 +157,7 @@ func CheckC15(c *Ctx) {
 		c.Floor("oracle class "+cl, c.Counts["oracle:"+cl], 10)
 	}
 	c.SetReport(Report{
-		Rule:        "interval oracle of the statement evaluated on the exact real value of the float64 (math/big), applied to the three Rating functions (hence also their mutual agreement); error identity via errors.Is(ErrOutOfBoundsScore) and empty string. COMPLETE: all 101 one-decimal scores, each threshold 0/0.1/4/7/9/10 with 1-4 ulps below and above, +-1e-9, -0.0, +-smallest subnormal, +-Inf, +-MaxFloat64; sampled: random float64 bit patterns and random values in [-1,11]. NaN skipped (unspecified). distinct = distinct float64 bit patterns",
+		Rule:        "interval oracle of the statement evaluated on the exact real value of the float64 (math/big), applied to the three Rating functions (hence also their mutual agreement); error identity via errors.Is(ErrOutOfBoundsScore) and empty string. COMPLETE: all 101 one-decimal scores, each threshold 0/0.1/4/7/9/10 with 1-4 ulps below and above, +-1e-9, -0.0, +-smallest subnormal, +-Inf, +-MaxFloat64; every one-decimal score also as k*0.1 and as 0.1 added k times, with 1-4 ulps and +-10^-j (j=1..16) around it and around its midpoint to the next score; six mantissa patterns at EVERY binary exponent (-1074..1023, so every denormal magnitude) and three at every decimal exponent, both signs; sampled: random float64 bit patterns and random values in [-1,11]. NaN skipped (unspecified). distinct = distinct float64 bit patterns",
 		Assumptions: []string{"none beyond math/big"},
 	})
 	c.Finish()
